@@ -428,10 +428,12 @@ func (c *converter) syncIngressHTTP(source *annotations.Source, ing *networking.
 			if sslpassthrough && uri == "/" {
 				if host.FindPath(uri) != nil {
 					c.logger.Warn("skipping redeclared ssl-passthrough root path on %v", source)
+					c.trackSkippedBackend(source, ing.Namespace, &path.Backend)
 					continue
 				}
 			} else if host.FindPathWithLink(pathLink) != nil {
 				c.logger.Warn("skipping redeclared path '%s' type '%s' on %v", uri, match, source)
+				c.trackSkippedBackend(source, ing.Namespace, &path.Backend)
 				continue
 			}
 			if redirectTo := annBack[ingtypes.BackRedirectTo]; redirectTo != "" {
@@ -725,6 +727,7 @@ func (c *converter) addDefaultHostBackend(source *annotations.Source, fullSvcNam
 		if fr.FindPath(uri, match) != nil {
 			// track the host anyway, this ingress might own the path after the current owner is removed
 			c.tracker.TrackNames(source.Type, source.FullName(), convtypes.ResourceHAHostname, hostname)
+			c.trackSkippedService(source, fullSvcName, svcPort)
 			return fmt.Errorf("path %s was already defined on default host", uri)
 		}
 	}
@@ -737,6 +740,31 @@ func (c *converter) addDefaultHostBackend(source *annotations.Source, fullSvcNam
 	host := c.addHost(hostname, source, annHost)
 	host.AddPath(backend, uri, match)
 	return nil
+}
+
+// trackSkippedBackend links a declaration that lost its host and path to the backend
+// it would use. Such declaration might own the path after the current owner is removed,
+// and a backend that already exists by then need to be rebuilt as well: its content
+// depends on all the ingress that reference it, in the creation order.
+func (c *converter) trackSkippedBackend(source *annotations.Source, namespace string, backend *networking.IngressBackend) {
+	if svcName, svcPort, err := readServiceNamePort(backend); err == nil {
+		c.trackSkippedService(source, namespace+"/"+svcName, svcPort)
+	}
+}
+
+func (c *converter) trackSkippedService(source *annotations.Source, fullSvcName, svcPort string) {
+	var port *api.ServicePort
+	if svc, err := c.cache.GetService(source.Namespace, fullSvcName); err == nil {
+		port = convutils.FindServicePort(svc, svcPort)
+	}
+	if port == nil {
+		// cannot be resolved yet, follow the service instead
+		c.tracker.TrackNames(source.Type, source.FullName(), convtypes.ResourceService, fullSvcName)
+		return
+	}
+	ssvcName := strings.Split(fullSvcName, "/")
+	backendID := hatypes.BackendID{Namespace: ssvcName[0], Name: ssvcName[1], Port: port.TargetPort.String()}
+	c.tracker.TrackNames(source.Type, source.FullName(), convtypes.ResourceHABackend, backendID.String())
 }
 
 func (c *converter) addTCPService(source *annotations.Source, hostname string, ann map[string]string) (*hatypes.TCPServiceHost, error) {
